@@ -66,6 +66,8 @@ type chooseRec struct {
 	Val  int
 }
 
+var gcSizes = types.SizesFor("gc", "amd64")
+
 func (in *interp) cur() *run { return in.r }
 
 type deferred struct {
@@ -272,9 +274,29 @@ func (in *interp) visitInstr(fr *frame, instr ssa.Instruction) continuation {
 		}
 		*addr = in.zero(deref(instr.Type()))
 	case *ssa.MakeSlice:
+		tElt0 := instr.Type().Underlying().(*types.Slice).Elem()
+		if ct := in.ext64(fr.get(instr.Cap), instr.Cap.Type()); !ct.IsConst() {
+			// the runtime's rule (amd64): panic iff cap < 0 or cap * element size exceeds 2^48
+			es := gcSizes.Sizeof(tElt0)
+			if es <= 0 {
+				es = 1
+			}
+			lim := in.ctx.Const(64, uint64((int64(1)<<48)/es))
+			bad := in.ctx.Or(in.ctx.Cmp(sym.OpSLt, ct, in.ctx.Const(64, 0)), in.ctx.Cmp(sym.OpSLt, lim, ct))
+			if in.cur().branch(bad, "makeslice-cap-out-of-range") {
+				panic(rtPanic("makeslice: cap out of range"))
+			}
+		}
 		cp, ok1 := in.concInt(fr.get(instr.Cap), 0, 1<<24, "makeslice-cap")
+		if !ok1 {
+			if c := fr.get(instr.Cap).(*sym.Term); c.IsConst() && c.Int() < 0 {
+				panic(rtPanic("makeslice: cap out of range"))
+			}
+			// between 2^24 elements and the runtime's limit the allocation may succeed or exhaust memory
+			panic(pathEnd{kind: "unwind", msg: "allocation of more than 2^24 elements (" + in.whereNow() + ")"})
+		}
 		ln, ok2 := in.concInt(fr.get(instr.Len), 0, cp, "makeslice-len")
-		if !ok1 || !ok2 {
+		if !ok2 {
 			panic(rtPanic("makeslice: len out of range"))
 		}
 		var s []value
